@@ -83,8 +83,15 @@ def run(repo: Repo, chk: Check, thorough: bool = False) -> None:
            f"quote({pvar}.fullName()) + '.html'" if ok else 'the page file name is no longer quote(page_object.fullName()) + ".html"', url.loc)
     # the single-root special case compares the qualified name
     cmp_ = [n for n in url.walk() if isinstance(n, ast.Compare) and 'root_names' in norm(n)]
+    def holds_full_name(e: ast.AST) -> bool:
+        if norm(e) == f'{pvar}.fullName()':
+            return True
+        if isinstance(e, ast.Name):
+            vals = [n.value for n in url.walk() if isinstance(n, ast.Assign) and any(isinstance(t, ast.Name) and t.id == e.id for t in n.targets)]
+            return bool(vals) and all(norm(v) == f'{pvar}.fullName()' for v in vals)
+        return False
     ok = bool(cmp_) and all(isinstance(c.comparators[0], ast.List) and len(c.comparators[0].elts) == 1 and
-                            norm(c.comparators[0].elts[0]) == f'{pvar}.fullName()' for c in cmp_)
+                            holds_full_name(c.comparators[0].elts[0]) for c in cmp_)
     chk.ob('R11.1', f'{DOC}.url :: index.html only for the single root itself', ok,
            'list(root_names) == [page_object.fullName()]' if ok else
            f'`{norm(cmp_[0]) if cmp_ else "?"}`: a sub-module/class whose short name equals the single root\'s name also gets index.html and '
@@ -107,9 +114,13 @@ def run(repo: Repo, chk: Check, thorough: bool = False) -> None:
             continue
         for c in calls_in(f, lambda c: call_name(c) == 'open'):
             opens.append((f, c))
+    from ..util import single_value, expanded_text
     for f, c in opens:
-        tgt = norm(c.func.value) if isinstance(c.func, ast.Attribute) else ''
-        jp = c.func.value if isinstance(c.func, ast.Attribute) and isinstance(c.func.value, ast.Call) and call_name(c.func.value) == 'joinpath' else None
+        recv = c.func.value if isinstance(c.func, ast.Attribute) else None
+        if isinstance(recv, ast.Name) and single_value(f, recv.id) is not None:
+            recv = single_value(f, recv.id)      # `page_path = build_directory.joinpath(...)` ; `page_path.open(...)`
+        tgt = norm(recv) if recv is not None else ''
+        jp = recv if isinstance(recv, ast.Call) and call_name(recv) == 'joinpath' else None
         arg = jp.args[0] if jp is not None and len(jp.args) == 1 else None
         # links carry the percent-encoded url (Documentable.url applies quote()); whoever follows a link decodes it, so the file on disk
         # must bear the DECODED name: build_directory / unquote(ob.url).  Fixed page names are plain constants.
@@ -187,11 +198,13 @@ def run(repo: Repo, chk: Check, thorough: bool = False) -> None:
     DOCUTILS_RAW_HREF_HOOKS = {'footnote_backrefs': 'the links from a footnote / citation back to its references'}
     trc = repo.cls('pydoctor.node2stan.HTMLTranslator')
     st_ = trc.methods.get('starttag')
-    if st_ is None or not any(isinstance(c_, ast.Constant) and isinstance(c_.value, str) and 'rst-' in c_.value for c_ in ast.walk(st_.node)):
+    from ..util import scope_nodes
+    st_scope = scope_nodes(repo, st_) if st_ is not None else []
+    if st_ is None or not any(isinstance(c_, ast.Constant) and isinstance(c_.value, str) and 'rst-' in c_.value for c_ in st_scope):
         raise AnalysisError('R11.2: HTMLTranslator.starttag no longer prefixes ids with rst-')
     # ids and hrefs must be prefixed by the SAME rule, or a reference and its target drift apart (`rst-rst-primer` vs `#rst-primer`): every place
     # that adds the prefix does so under the "not already prefixed" test
-    adds = [n for g in (st_, trc.methods.get('footnote_backrefs')) if g is not None for n in ast.walk(g.node)
+    adds = [n for n in st_scope + ([x for x in ast.walk(trc.methods['footnote_backrefs'].node)] if 'footnote_backrefs' in trc.methods else [])
             if isinstance(n, ast.JoinedStr) and any(isinstance(v, ast.Constant) and isinstance(v.value, str) and v.value.endswith('rst-') for v in n.values)]
     if len(adds) < 3:
         raise AnalysisError(f'R11.2: only {len(adds)} places add the rst- prefix in HTMLTranslator (4 confirmed)')
@@ -239,13 +252,13 @@ def run(repo: Repo, chk: Check, thorough: bool = False) -> None:
     cfg = CFG(wd)
     rec = [c for c in calls_in(wd) if call_name(c) == '_writeDocsFor']
     loops = [n for n in wd.walk() if isinstance(n, ast.For) and 'contents' in norm(n.iter)]
-    ok = bool(rec) and bool(loops) and all(not any(isinstance(p, ast.If) and 'OWN_PAGE' in norm(p.test) for p in parents(l)) for l in loops)
+    ok = bool(rec) and bool(loops) and all(not any(isinstance(p, ast.If) and 'OWN_PAGE' in expanded_text(wd, p.test) for p in parents(l)) for l in loops)
     chk.ob('R11.3', f'{WR}._writeDocsFor :: recursion over all contents', ok,
            'for o in ob.contents.values(): self._writeDocsFor(o) - not nested under the OWN_PAGE test' if ok else
            'members of objects without own page (or some contents) are not visited: pages of nested classes are missing', wd.loc)
     op = [c for c in calls_in(wd) if call_name(c) == 'open']
-    ok = bool(op) and any(isinstance(p, ast.If) and 'OWN_PAGE' in norm(p.test) for p in parents(op[0])) and \
-        not any(isinstance(p, ast.If) and any(k in norm(p.test) for k in ('isPrivate', 'kind', 'docstring')) for p in parents(op[0]))
+    ok = bool(op) and any(isinstance(p, ast.If) and 'OWN_PAGE' in expanded_text(wd, p.test) for p in parents(op[0])) and \
+        not any(isinstance(p, ast.If) and any(k in expanded_text(wd, p.test) for k in ('isPrivate', 'kind', 'docstring')) for p in parents(op[0]))
     chk.ob('R11.3', f'{WR}._writeDocsFor :: a page for every visible OWN_PAGE object', ok,
            'opened under documentation_location is OWN_PAGE (and not dry_run) only' if ok else
            'pages are written under an additional condition: links to the skipped objects are dead', wd.loc)
@@ -274,8 +287,16 @@ def run(repo: Repo, chk: Check, thorough: bool = False) -> None:
                 if pol_ and isinstance(t_, ast.Compare) and len(t_.ops) == 1 and isinstance(t_.ops[0], ast.In) and isinstance(t_.comparators[0], ast.Attribute):
                     hidden_colls.add(t_.comparators[0].attr)
 
-    def _components(it: ast.AST) -> List[ast.AST]:
-        return list(it.args) if isinstance(it, ast.Call) and call_name(it) == 'chain' else [it]
+    def _components(it: ast.AST, depth: int = 0) -> List[ast.AST]:
+        if isinstance(it, ast.Call) and call_name(it) == 'chain':
+            return list(it.args)
+        # `for o in self._members():` where the helper method returns the chain
+        if isinstance(it, ast.Call) and isinstance(it.func, ast.Attribute) and not it.args and depth < 2:
+            hs = [g for g in repo.funcs.values() if g.mod.name == 'pydoctor.model' and g.name == it.func.attr and g.cls is not None]
+            rets = [r.value for g in hs for r in g.walk() if isinstance(r, ast.Return) and r.value is not None]
+            if len(hs) == 1 and len(rets) == 1:
+                return _components(rets[0], depth + 1)
+        return [it]
 
     def reachable_or_hidden(f: Func, name: str, depth: int = 0) -> Optional[str]:
         if depth > 3:
@@ -471,7 +492,8 @@ def run(repo: Repo, chk: Check, thorough: bool = False) -> None:
 
     # ------------------------------------------------------------------ R11.5
     tl = repo.func('pydoctor.linker.taglink')
-    sh = [n for n in tl.walk() if isinstance(n, ast.If) and 'startswith' in norm(n.test)]
+    from ..util import scope_nodes
+    sh = [n for n in scope_nodes(repo, tl) if isinstance(n, ast.If) and 'startswith' in norm(n.test)]
     ok = False
     detail = 'same-page shortening not found'
     for n in sh:
@@ -488,7 +510,7 @@ def run(repo: Repo, chk: Check, thorough: bool = False) -> None:
         elif isinstance(arg, ast.JoinedStr) and len(arg.values) == 2 and isinstance(arg.values[0], ast.FormattedValue) and \
                 isinstance(arg.values[1], ast.Constant) and arg.values[1].value == '#':
             pfx = norm(arg.values[0].value)
-        cuts = [a for st in n.body for a in ast.walk(st) if isinstance(a, ast.Assign) and norm(a.targets[0]) == x and
+        cuts = [a for st in n.body for a in ast.walk(st) if ((isinstance(a, ast.Assign) and norm(a.targets[0]) == x) or isinstance(a, ast.Return)) and
                 isinstance(a.value, ast.Subscript) and norm(a.value.value) == x and isinstance(a.value.slice, ast.Slice)]
         good = pfx is not None and bool(cuts) and all(a.value.slice.upper is None and a.value.slice.lower is not None and
                                                       norm(a.value.slice.lower) == f'len({pfx})' for a in cuts)  # type: ignore[attr-defined]
@@ -499,7 +521,11 @@ def run(repo: Repo, chk: Check, thorough: bool = False) -> None:
             '(links on the same page keep or lose the wrong prefix)'
     chk.ob('R11.5', 'pydoctor.linker.taglink :: strips exactly the page url', ok, detail, tl.loc)
     href = [c for c in calls_in(tl) if any(k.arg == 'href' for k in c.keywords)]
-    urlvars = {t.id for n in tl.walk() if isinstance(n, ast.Assign) and isinstance(n.value, ast.Attribute) and n.value.attr == 'url'
+    # `url = o.url`, or `url = _helper(o.url, ...)` with a private helper of the module (the shortening extracted)
+    urlvars = {t.id for n in tl.walk() if isinstance(n, ast.Assign) and
+               ((isinstance(n.value, ast.Attribute) and n.value.attr == 'url') or
+                (isinstance(n.value, ast.Call) and isinstance(n.value.func, ast.Name) and n.value.func.id.startswith('_') and n.value.args and
+                 isinstance(n.value.args[0], ast.Attribute) and n.value.args[0].attr == 'url' and f'pydoctor.linker.{n.value.func.id}' in repo.funcs))
                for t in n.targets if isinstance(t, ast.Name)}
     ok = bool(href) and all(isinstance(next(k.value for k in c.keywords if k.arg == 'href'), ast.Name) and
                             next(k.value for k in c.keywords if k.arg == 'href').id in urlvars for c in href)
